@@ -38,10 +38,12 @@ type memConn struct {
 	local        net.Addr
 	id           int
 	readChunk    int // > 0: a Read returns at most this many bytes (TCP segmentation)
+	t0           time.Time
+	armsTaken    int
 }
 
 func newMemConn(id int, remote net.Addr) *memConn {
-	c := &memConn{id: id, remote: remote, local: &net.TCPAddr{IP: net.IPv4(127, 0, 0, 1), Port: 38008}}
+	c := &memConn{id: id, remote: remote, local: &net.TCPAddr{IP: net.IPv4(127, 0, 0, 1), Port: 38008}, t0: time.Now()}
 	c.cond = sync.NewCond(&c.mu)
 	return c
 }
@@ -205,6 +207,28 @@ func (c *memConn) TakeOutput() []byte {
 	b := c.out
 	c.out = nil
 	return b
+}
+
+// TakeArms returns the SetReadDeadline calls since the last take: [call time, deadline] in ms since the connection was made.
+func (c *memConn) TakeArms() [][2]int64 {
+	c.mu.Lock()
+	defer c.mu.Unlock()
+	out := [][2]int64{}
+	for i := c.armsTaken; i < len(c.deadlines); i++ {
+		out = append(out, [2]int64{c.deadlineAt[i].Sub(c.t0).Milliseconds(), c.deadlines[i].Sub(c.t0).Milliseconds()})
+	}
+	c.armsTaken = len(c.deadlines)
+	return out
+}
+
+// CutAfterMs: how long after the last arming the server closed the connection, and whether its last read failed on the deadline.
+func (c *memConn) CutAfterMs() (int64, bool) {
+	c.mu.Lock()
+	defer c.mu.Unlock()
+	if len(c.deadlineAt) == 0 || c.closedAt.IsZero() {
+		return -1, false
+	}
+	return c.closedAt.Sub(c.deadlineAt[len(c.deadlineAt)-1]).Milliseconds(), errors.Is(c.readErr, os.ErrDeadlineExceeded)
 }
 
 func (c *memConn) ServerClosed() bool {
